@@ -24,12 +24,58 @@ def sigTypeOf (lf : Leaf) : SigType :=
   | .enumBits b => .bitvec b
   | .int32 => .bitvec 32
 
+/-! ### repeated block-boundary times
+
+A later value-change block may start its time chain with the last time of the previous block: the file's time chain
+(= the time table, C02) then holds that time twice. `dups` lists the positions `p` (index among the distinct times) that
+are repeated, with the flag "the repeated entry carries a record for every signal (its current value)". -/
+
+def parseDups (s : String) : Option (List (Nat × Bool)) :=
+  if s = "" ∨ s = "-" then some [] else
+  (s.splitOn ",").mapM fun t =>
+    if t.endsWith "e" then (t.dropEnd 1).toString.toNat?.map fun p => (p, false)
+    else t.toNat?.map fun p => (p, true)
+
+/-- the file's time chain: position `p` once more for every repetition -/
+def chainWithDups (times : List Nat) (dups : List (Nat × Bool)) : List Nat :=
+  (List.range times.length).flatMap fun i =>
+    let t := times.getD i 0
+    t :: (dups.filter fun d => d.1 = i).map fun _ => t
+
+/-- the value a signal holds at position `p` -/
+def currentAt (l : List (Nat × Value)) (p : Nat) : Option Value :=
+  ((l.filter fun c => c.1 ≤ p).getLast?).map (·.2)
+
+/-- the callbacks fst-reader delivers for one signal, as (time, value): the last value of every time step, and after the
+steps up to `p` the re-written current value for every repetition of `p` that carries records -/
+def timedCallbacks (times : List Nat) (dups : List (Nat × Bool)) (l : List (Nat × Value)) : List (Nat × Value) :=
+  let ls := lastPerStep l
+  (List.range times.length).flatMap fun i =>
+    let t := times.getD i 0
+    (ls.filter fun c => c.1 = i).map (fun c => (t, c.2)) ++
+      (dups.filter fun d => d.1 = i ∧ d.2).filterMap fun _ => (currentAt ls i).map fun v => (t, v)
+
+/-- `load_signals`: the time index of every callback through the forward-only cursor over the reader's time table -/
+def indexCallbacks (tt : List Nat) (cbs : List (Nat × Value)) : Option (List (Nat × Value)) :=
+  (cbs.foldl (fun (acc : Option (Nat × List (Nat × Value))) c =>
+      acc.bind fun (idx, out) =>
+        (cursorAdvance tt idx c.1 (tt.length + 1)).map fun i => (i, (i, c.2) :: out))
+    (some (0, []))).map fun r => r.2.reverse
+
+def toW (l : List (Nat × Value)) : Option (List (Nat × WValue)) :=
+  l.mapM fun (i, v) =>
+    match v with
+    | .bits syms => some (i, WValue.chars (syms.map fun s => Gen.lookup9.getD s 63))
+    | .real le => some (i, WValue.real le)
+    | .str _ => none
+
 /-- the dump of the FST rendering of a design, values through the model of `SignalWriter` -/
-def model (design exp : String) : String :=
-  match parseDesign design, exp.toInt? with
-  | none, _ => "bad-request"
-  | _, none => "bad-request"
-  | some (items, w), some e =>
+def model (design exp : String) (dupsTxt : String := "") : String :=
+  match parseDesign design, exp.toInt?, parseDups dupsTxt with
+  | none, _, _ => "bad-request"
+  | _, none, _ => "bad-request"
+  | _, _, none => "bad-request"
+  | some (items, w), some e, some dups =>
     match denote items w with
     | none => "bad-request"
     | some d =>
@@ -39,14 +85,18 @@ def model (design exp : String) : String :=
       | none => "panic"
       | some (factor, unitExp) =>
       let unitName := ["Seconds", "MilliSeconds", "MicroSeconds", "NanoSeconds", "PicoSeconds", "FemtoSeconds"].getD ((-unitExp) / 3).toNat "?"
+      let times := d.times.map (· / div)
+      let tt := chainWithDups times dups
       let table : List (Option String) := (List.range d.leaves.length).map fun i =>
         let tp := sigTypeOf (d.leaves.getD i default)
-        match callbacks (d.changes.getD i []) with
+        let cbs := if dups.isEmpty then callbacks (d.changes.getD i [])
+          else (indexCallbacks tt (timedCallbacks times dups (d.changes.getD i []))).bind toW
+        match cbs with
         | none => none
         | some cb => (runWriter tp cb).bind (Ghw.showLoaded tp)
       if table.any Option.isNone then "panic" else
       match treeB (fstOps d) (fun i => (table.getD i none).getD "?") with
       | none => "panic"
-      | some t => t ++ "|tt=" ++ natList (d.times.map (· / div)) ++ s!"|ts={factor}:{unitName}"
+      | some t => t ++ "|tt=" ++ natList tt ++ s!"|ts={factor}:{unitName}"
 
 end Wellen.FstFile
